@@ -189,8 +189,9 @@ func c01eq(a, b []int, label string) {
 
 // c01inv asserts the invariant on the tree after an operation.
 func c01inv(t *Tree[int], rev int, what string) []int {
-	var in []int
-	c01in(t.root, &in)
+	// the multiset half looks at the tree through its public in-order slice (so that it holds for
+	// any representation of the nodes); the balance half necessarily walks the nodes
+	in := t.SliceInOrder()
 	if vParam("SET") == 1 {
 		for i := 1; i < len(in); i++ {
 			vAssert(c01le(rev, in[i-1], in[i]), what+": in-order walk is non-decreasing")
@@ -304,8 +305,7 @@ func c01step(op int) {
 		if pan {
 			return
 		}
-		var cin []int
-		c01in(c.root, &cin)
+		cin := c.SliceInOrder()
 		c01same(rev, cin, pre, "Clone has the same contents")
 		vAssert(c.Len() == n, "Clone has the same Len")
 		var a, b []*node[int]
@@ -321,8 +321,7 @@ func c01step(op int) {
 		if !pan {
 			c01inv(&c, rev, "clone after Add")
 		}
-		var after []int
-		c01in(t.root, &after)
+		after := t.SliceInOrder()
 		c01eq(after, pre, "operations on the clone leave the original unchanged")
 		vAssert(t.Len() == n, "operations on the clone leave the original's Len unchanged")
 		if n >= 2 {
@@ -391,6 +390,13 @@ func VHAvlHist() {
 			vAssert(c01count(in, p) == cnt, "the tree holds exactly the values added and not yet removed (multiset)")
 			vAssert(t.Contains(p) == (cnt != 0), "Contains agrees with the multiset")
 			c01eq(t.SliceInOrder(), in, "SliceInOrder lists the tree in order")
+			// the other traversals hold the same multiset (duplicates included)
+			gpre, gpost := t.SlicePreOrder(), t.SlicePostOrder()
+			vAssert(len(gpre) == size && len(gpost) == size, "pre- and post-order slices list every value (size)")
+			vAssert(c01count(gpre, p) == cnt && c01count(gpost, p) == cnt, "pre- and post-order slices hold the same multiset as the in-order slice")
+			var wpost uint8
+			t.WalkPostOrder(func(v int) { wpost += vB2U8(v == p) })
+			vAssert(wpost == cnt, "WalkPostOrder visits the same multiset")
 		}
 	}
 	if size >= 3 {
@@ -398,16 +404,14 @@ func VHAvlHist() {
 	}
 	{
 		// Clone of a tree that has a history (stale internal fields included) is independent
-		var before []int
-		c01in(t.root, &before)
+		before := t.SliceInOrder()
 		var c Tree[int]
 		pan := vPanics(func() { c = t.Clone() })
 		vAssert(!pan, "history: Clone works for a tree of any size")
 		if pan {
 			return
 		}
-		var cin []int
-		c01in(c.root, &cin)
+		cin := c.SliceInOrder()
 		c01same(rev, cin, before, "history: Clone has the same contents")
 		vAssert(c.Len() == size, "history: Clone has the same Len")
 		var a, b []*node[int]
@@ -424,8 +428,7 @@ func VHAvlHist() {
 			c.Remove(before[0])
 			c01inv(&c, rev, "history: clone after Remove")
 		}
-		var after []int
-		c01in(t.root, &after)
+		after := t.SliceInOrder()
 		c01eq(after, before, "history: operations on the clone leave the original unchanged")
 		vAssert(t.Len() == size, "history: operations on the clone leave the original's Len unchanged")
 	}
